@@ -10,6 +10,10 @@ _ENGINE_NOTE = "Trusted: gosym (own SSA->SMT executor; validated per run by diff
 _CONC_TECH = "bounded symbolic execution of the real code from go/ssa in the executor's concurrent mode: goroutine interleavings at synchronisation operations are decision variables of the path (case-split within a preemption bound), a vector-clock happens-before monitor checks every load/store, operation choices are SMT variables (z3); violating schedules are replayed natively under the Go race detector"
 
 META = {
+    "C12": {
+        "text": "Decided lemma by lemma on the real code, each lemma for all inputs within its bound by the solver: (1) one round of the real shrinker offers, for every block, the values 0..4 and block-1, and every standalone group for removal - also for a second shrink in the same process; minimize() is exact for threshold conditions on blocks up to 9 bits and its accept/binSearch probe facts hold at 64 bits; (2) for all 12 full-range integer kinds, both directions and every 64-bit threshold, a failing recording in which no block can be lowered by one decodes to the exact boundary, decoding is monotone in the bias and data words, and overflow draws keep the all-ones shape that lets the bias block leave overflow mode; (3) for slices, strings and maps of up to 2-3 elements a recording that admits no group removal and no block decrement has exactly k elements (all zero for integer slices). The composition into 'given enough time the reported counterexample is the boundary' is a paper step, hence level 'other'.",
+        "note": _ENGINE_NOTE + " The composition step and the width-uniformity of minimize's binary search beyond 9-bit blocks are argued, not machine-checked.",
+    },
     "C15": {
         "text": "Bounded model checking of shared generator values under concurrent use: for 18 generator families one instance is used by 2-3 goroutines (own T, own bitstream) performing solver-chosen sequences of Draw / String / use-as-sub-generator, first and later uses; every interleaving of synchronisation operations within the preemption bound is explored; a happens-before monitor shows there is no data race on anything reachable from the generator or on package-level caches, and each goroutine's results equal those of the same operations on a private instance run alone.",
         "note": _ENGINE_NOTE + " Concurrency: sequentially consistent interleavings, switches at synchronisation operations only, preemption bound 1-2, 2-3 goroutines x 1-2 operations, two fixed bitstreams; Make and the regexp engine are outside the claim.",
